@@ -69,8 +69,8 @@ func runC14(c *Ctx, r *Report) {
 	checkResolveFilePathOrder(c, r, "C14/resolve-order")
 	checkEmbeddedSecurityDefaults(c, r, "C14/embedded-defaults")
 	r.Rule("C14/default-on", "SSHArgs.StrictKey is written only by the constructor (true) and the explicit opt-out option (false)", 2)
-	r.Rule("C14/standard", "standard transport: host-key callback, early returns, identity provenance on every path to the dial", 30)
-	r.Rule("C14/system", "system transport: the ssh argument list for every combination of settings", 90)
+	r.Rule("C14/standard", "standard transport: host-key callback, early returns, identity provenance on every path to the dial", 8)
+	r.Rule("C14/system", "system transport: the ssh argument list for every combination of settings", 16)
 	r.Rule("C14/no-password-on-argv", "no credential reaches an exec.Command argument", 1)
 
 	checkStrictDefault(c, r)
@@ -125,7 +125,7 @@ func checkStandardOpenBase(c *Ctx, r *Report) {
 		}
 		return false
 	}
-	paths := EnumeratePaths(c, fn, &dtConfig{IsAtomCall: pure})
+	paths := EnumeratePaths(c, fn, &dtConfig{IsAtomCall: pure, Keep: func(f *ssa.Function) bool { return f == os }})
 	t := "param:" + fn.Params[0].Name()
 	a := "param:" + fn.Params[1].Name()
 	n := 0
@@ -252,7 +252,7 @@ func checkSystemArgs(c *Ctx, r *Report) {
 		r.Anchor(rule, "(*transport.System).buildOpenArgs / open")
 		return
 	}
-	pure := func(call *ssa.Call) bool { return true }
+	pure := atomsExcept()
 	paths := EnumeratePaths(c, fn, &dtConfig{IsAtomCall: pure})
 	t := "param:" + fn.Params[0].Name()
 	a := "param:" + fn.Params[1].Name()
@@ -269,6 +269,9 @@ func checkSystemArgs(c *Ctx, r *Report) {
 			continue
 		}
 		args := flattenAppend(final)
+		for i := range args {
+			args[i] = normFmtKey(args[i])
+		}
 		strict := p.Assume[t+".SSHArgs.StrictKey"]
 		user := p.Assume[a+".User"]
 		kh := p.Assume[t+".SSHArgs.KnownHostsFile"]
@@ -278,6 +281,7 @@ func checkSystemArgs(c *Ctx, r *Report) {
 		construct := fmt.Sprintf("buildOpenArgs strict=%s user%s knownhosts%s config%s key%s extra=%s #%d", strict, user, kh, cf, key, extra, n)
 		var probs []string
 		follows := func(flag, val string) bool {
+			val = normFmtKey(val)
 			for i := 0; i+1 < len(args); i++ {
 				if args[i] == flag && args[i+1] == val {
 					return true
@@ -348,7 +352,7 @@ func checkSystemArgs(c *Ctx, r *Report) {
 		if o == nil {
 			continue
 		}
-		for _, ci := range callInstrs(o) {
+		for _, ci := range callInstrsDeep(o, 2) {
 			if ob := CalleeObj(ci); ob != nil && ob.Pkg() != nil && ob.Pkg().Path() == "os/exec" && ob.Name() == "Command" {
 				args := ci.Common().Args
 				okExec = len(args) == 2 && isFieldLoadNamed(args[0], "OpenBin") && isFieldLoadNamed(args[1], "OpenArgs")
